@@ -82,6 +82,7 @@ class Profile:
         self.types = {"int", "float", "str", "bool", "datetime"}   # types with comparisons
         self.arith = {"add", "sub", "mul", "div", "mod"}
         self.float_arith = True
+        self.str_add = False                   # `add` on strings (concatenation; SQLAlchemy only)
         self.neg = True                        # unary minus on non-literals
         self.neg_literal = True                # "- 1" (UnaryOp on a literal)
         self.bare_bool_column = True           # `flag` used as a predicate by itself
@@ -153,6 +154,13 @@ def gen(rng, p, typ, depth):
     if typ == "bool":
         return gen_bool(rng, p, depth)
     if isinstance(typ, tuple):
+        # list-typed value: a literal, or (nested) concat / substring over lists
+        if depth > 0 and p.list_funcs and rng.random() < 0.45:
+            cands = [(n, a) for n, sigs in LIST_FUNCS.items() if n in p.funcs
+                     for a, ret in sigs if ret == typ]
+            if cands:
+                name, args = rng.choice(cands)
+                return ("call", name, tuple(gen(rng, p, a, depth - 1) for a in args))
         return gen_lit(rng, p, typ)
     if depth <= 0:
         return gen_leaf(rng, p, typ)
@@ -177,6 +185,8 @@ def gen(rng, p, typ, depth):
         if x[0] != "lit" and not p.neg:
             return x
         return ("un", "neg", x)
+    if typ == "str" and p.str_add and r < 0.45:
+        return ("bin", "add", gen(rng, p, "str", depth - 1), gen(rng, p, "str", depth - 1))
     fs = _funcs_returning(p, typ)
     if fs:
         name, args = rng.choice(fs)
@@ -334,6 +344,9 @@ def conforms(t, p):
                 return p.neg_literal
             return p.neg and walk(n[2], False)
         if k == "bin":
+            if n[1] == "add" and (n[2][0] == "lit" and n[2][1] == "str" or
+                                  n[3][0] == "lit" and n[3][1] == "str") and not p.str_add:
+                return False
             return n[1] in p.arith and walk(n[2], False) and walk(n[3], False)
         if k == "cmp":
             l, r = n[2], n[3]
